@@ -2,7 +2,7 @@
 import itertools
 import json
 
-from mc import core, pelgen, decode
+from mc import subchunk, core, pelgen, decode
 from mc.core import ChunkResult
 
 PROPERTY = 'C01'
@@ -17,7 +17,7 @@ LEVEL_TEXT = ('All ordered pairs (thorough: triples) over a variant alphabet tha
               'alone, (4) the final stream cursor. Framing defects are interaction defects between neighbouring sections, '
               'so the pair/triple product is the right bound.')
 LEVEL_NOTE = ('sections are well-formed by the layout the decoders document; sequences longer than 3 distinct variants '
-              'are covered only by the repeat and 253-section cases; pel_values name tables trusted')
+              'are covered only by the repeat and 253-section cases; display names from a frozen copy of the published tables (mc/ref/pel_tables_frozen)')
 RULE = ('thorough also: every one of the 65 527 two-byte section ids without a type-specific decoder, followed by a sentinel. ' 'enumerate PELs = PH UH + sequence of section variants: all ordered pairs (quick) / triples over one variant per '
         'type (thorough) x creator ids, each type repeated 1..4 times, 253 optional sections of one type, payload '
         'lengths 0..64,255,256,4096,65527 for length-driven types. Non-trivial: >= 2 optional sections or a payload '
@@ -89,6 +89,8 @@ def plan(tier, seed):
     for i in range(len(VARS)):
         chunks.append({'k': 'pairs', 'first': i, 'creators': ['O', 'B', 'H', 'x'] if tier == 'quick' else CREATORS})
     chunks.append({'k': 'repeat'})
+    chunks.append({'k': 'repeat', 'optimize': True})                  # the same under python -O (assertions stripped)
+    chunks.append({'k': 'sandwich', 'first': 3, 'optimize': True})
     chunks.append({'k': 'cli'})
     chunks.append({'k': 'limit'})
     for t in ('UD', 'ED', 'DH', 'ZZ'):
@@ -183,6 +185,9 @@ def _brief(case):
 
 
 def run_chunk(chunk):
+    routed = subchunk.route(__name__, chunk)
+    if routed is not None:
+        return routed
     res = ChunkResult()
     k = chunk['k']
     byname = dict(VARS)
